@@ -2111,3 +2111,80 @@ func ruleTextFieldsStayText(c *Ctx, rule string) {
 		c.undecided(rule, "text-fields/floor", "-", fmt.Sprintf("only %d text fields of decoded types found in the field inventory", n))
 	}
 }
+
+// ruleAtomicReadModifyWrite: a table published through an atomic.Value (copy-on-write) is replaced under a lock that
+// is already held when the old table is read: load, copy and store form one critical section. A load taken before
+// the writers' lock (or with no lock at all) lets two writers start from the same snapshot; the second store drops what
+// the first one added (a learned route, a registered entry) without any data race for the race detector to see.
+func ruleAtomicReadModifyWrite(c *Ctx, rule string) {
+	w := c.w
+	isAtomic := func(cs callSite, op string) (string, bool) {
+		if !(strings.HasPrefix(cs.Name, "(*sync/atomic.") && strings.HasSuffix(cs.Name, ")."+op)) {
+			return "", false
+		}
+		args := cs.In.Common().Args
+		if len(args) == 0 {
+			return "", false
+		}
+		if fa, ok := args[0].(*ssa.FieldAddr); ok {
+			return fieldRef(fa), true
+		}
+		return "", false
+	}
+	// accessors: package functions that return what Load() of a field of their receiver gives
+	accessor := map[*ssa.Function]string{}
+	for _, fn := range w.All {
+		if !w.isMain(fn) || fn.Blocks == nil || len(fn.Blocks) > 2 {
+			continue
+		}
+		for _, cs := range w.callsIn(fn) {
+			if ref, ok := isAtomic(cs, "Load"); ok {
+				accessor[fn] = ref
+			}
+		}
+	}
+	n := 0
+	for _, fn := range w.All {
+		if !w.isMain(fn) || fn.Blocks == nil {
+			continue
+		}
+		for _, st := range w.callsIn(fn) {
+			ref, ok := isAtomic(st, "Store")
+			if !ok {
+				continue
+			}
+			// constructors publish the first table
+			if fa := st.In.Common().Args[0].(*ssa.FieldAddr); w.isFreshValue(fn, strip(fa.X), 0) {
+				continue
+			}
+			n++
+			var locks []ssa.Instruction
+			for _, cs := range w.callsIn(fn) {
+				if _, isDefer := cs.In.(*ssa.Defer); isDefer {
+					continue
+				}
+				if _, acq, isLock := w.lockClass(cs.In); isLock && acq && !strings.HasSuffix(cs.Name, ".RLock") {
+					locks = append(locks, cs.In)
+				}
+			}
+			k := 0
+			for _, ld := range w.callsIn(fn) {
+				lref, isLd := isAtomic(ld, "Load")
+				if !isLd {
+					if g := ld.In.Common().StaticCallee(); g != nil && accessor[g] != "" {
+						lref, isLd = accessor[g], true
+					}
+				}
+				if !isLd || lref != ref || !canReach(at(ld.In), nil, isInstr(st.In), nil) {
+					continue
+				}
+				k++
+				held := len(locks) > 0 && mustPrecede(fn, locks, ld.In, nil)
+				c.check(held, rule, fmt.Sprintf("%s/%s/load-under-writer-lock#%d", w.fname(fn), ref, k), w.ipos(ld.In), "the old table is read under the lock the new one is stored under", "the table published through "+ref+" is read at "+w.ipos(ld.In)+" before (or without) the lock under which its replacement is stored at "+w.ipos(st.In)+": two writers can copy the same snapshot and the later store drops the other's entry - a lost update that is no data race")
+			}
+		}
+	}
+	if n == 0 {
+		c.okTrivial(rule, "atomic-tables/none", "-", "no table is published through an atomic value")
+	}
+}
